@@ -619,3 +619,23 @@
 (define-fun rfn_len_hi ((w Any)) Int (ite ((_ is box<*cty.refinementCollection>) w) (cty.refinementCollection.maxLen (rcoll_at (unbox<*cty.refinementCollection> w))) 9223372036854775807))
 ; element j of a slice of types
 (define-fun ty_at ((s Slice) (j Int)) cty.Type (select (select F.Arr<cty.Type> (Slice.ptr s)) (+ (Slice.off s) j)))
+
+; ---- abstract member sets (C13 set functions). The generic set package is not under contract: the set of
+; ---- members of a set value / of a cty.ValueSet is an uninterpreted observation, the four set operations
+; ---- are uninterpreted functions on it (their algebra is not needed for what is proved: that the shared
+; ---- implementation folds the operation over all converted arguments, left to right).
+(declare-sort VSet 0)
+(declare-fun vs_of (cty.Value) VSet)            ; members of a known set value
+(declare-fun vs_abs (cty.ValueSet) VSet)        ; members of a ValueSet (never mutated in verified code)
+(declare-fun vs_ety (cty.ValueSet) cty.Type)    ; its element type
+(declare-fun vs_union (VSet VSet) VSet)
+(declare-fun vs_inter (VSet VSet) VSet)
+(declare-fun vs_minus (VSet VSet) VSet)
+(declare-fun vs_symdiff (VSet VSet) VSet)
+(declare-fun vs_op (Func VSet VSet) VSet)       ; what a given binary set-operation function value computes
+(declare-fun cset_of (cty.Value cty.Type) VSet) ; members of the value after conversion to the type
+(declare-fun wholly_known (cty.Value) Bool)     ; answer of IsWhollyKnown (not under contract)
+; left fold of the operation over the first k converted arguments
+(declare-fun set_fold (Func Slice cty.Type Int) VSet)
+(assert (forall ((f Func) (a Slice) (t cty.Type)) (! (= (set_fold f a t 1) (cset_of (val_at a 0) t)) :pattern ((set_fold f a t 1)))))
+(assert (forall ((f Func) (a Slice) (t cty.Type) (k Int)) (! (=> (>= k 2) (= (set_fold f a t k) (vs_op f (set_fold f a t (- k 1)) (cset_of (val_at a (- k 1)) t)))) :pattern ((set_fold f a t k)))))
